@@ -21,3 +21,59 @@ package podtaskexecutor
 //@   ensures [C09] owned-by-the-job: result1 == nil ==> len(result0.OwnerReferences) == 1 && result0.OwnerReferences[0].UID == rj.UID && result0.OwnerReferences[0].Name == rj.Name
 //@        && result0.OwnerReferences[0].Controller != nil && *result0.OwnerReferences[0].Controller
 //@   ensures result1 != nil ==> result0 == nil
+
+// ---- substitution.go: where variables are substituted in the pod spec (C18) -------------------------------------------------------
+// generated deep copies (k8s.io/api/core/v1): ASSUMED fresh copies with equal contents
+//@ import v1 "k8s.io/api/core/v1"
+//@ pure sameEnv(a []v1.EnvVar, b []v1.EnvVar) bool = len(a) == len(b) && (forall k int :: {a[k]} {b[k]} 0 <= k && k < len(a) ==> a[k] == b[k])
+//@ pure sameStrings(a []string, b []string) bool = len(a) == len(b) && (forall k int :: {a[k]} {b[k]} 0 <= k && k < len(a) ==> a[k] == b[k])
+//@ extern func (*k8s.io/api/core/v1.Container).DeepCopy
+//@   params in
+//@   fresh result
+//@   ensures in != nil ==> result != nil && result.Name == in.Name && result.Image == in.Image && sameEnv(result.Env, in.Env) && sameStrings(result.Command, in.Command) && sameStrings(result.Args, in.Args)
+//@        && (len(in.Env) > 0 ==> fresh(result.Env)) && (len(in.Command) > 0 ==> fresh(result.Command)) && (len(in.Args) > 0 ==> fresh(result.Args))
+//@        && (len(in.Command) > 0 && len(in.Args) > 0 ==> !samearray(result.Command, result.Args))
+//@ extern func (*k8s.io/api/core/v1.EnvVar).DeepCopy
+//@   params in
+//@   fresh result
+//@   ensures in != nil ==> result != nil && result.Name == in.Name && result.Value == in.Value
+
+// every place a variable can appear in a container is substituted: image, env values, command, args (C18)
+//@ pure envDone(n []v1.EnvVar, o []v1.EnvVar, upto int, sub subFunc) bool = len(n) == len(o) && (forall k int :: {n[k]} 0 <= k && k < len(o) ==> n[k].Name == o[k].Name && n[k].Value == (k <= upto ? sub(o[k].Value) : o[k].Value))
+//@ pure strsDone(n []string, o []string, upto int, sub subFunc) bool = len(n) == len(o) && (forall k int :: {n[k]} 0 <= k && k < len(o) ==> n[k] == (k <= upto ? sub(o[k]) : o[k]))
+//@ func substituteContainer
+//@   tags C18
+//@   loop 1 invariant -1 <= rangeindex && rangeindex < len(newContainer.Env) && newContainer != nil && fresh(newContainer)
+//@        && (len(container.Env) > 0 ==> fresh(newContainer.Env)) && (len(container.Command) > 0 ==> fresh(newContainer.Command)) && (len(container.Args) > 0 ==> fresh(newContainer.Args))
+//@        && (len(container.Command) > 0 && len(container.Args) > 0 ==> !samearray(newContainer.Command, newContainer.Args))
+//@        && newContainer.Image == sub(container.Image) && newContainer.Name == container.Name
+//@   loop 1 invariant envDone(newContainer.Env, container.Env, rangeindex, sub) && strsDone(newContainer.Command, container.Command, -1, sub) && strsDone(newContainer.Args, container.Args, -1, sub)
+//@   loop 2 invariant -1 <= rangeindex && rangeindex < len(newContainer.Command) && newContainer != nil && fresh(newContainer)
+//@        && (len(container.Command) > 0 ==> fresh(newContainer.Command)) && (len(container.Args) > 0 ==> fresh(newContainer.Args))
+//@        && (len(container.Command) > 0 && len(container.Args) > 0 ==> !samearray(newContainer.Command, newContainer.Args))
+//@        && newContainer.Image == sub(container.Image) && newContainer.Name == container.Name
+//@   loop 2 invariant envDone(newContainer.Env, container.Env, len(container.Env), sub) && strsDone(newContainer.Command, container.Command, rangeindex, sub) && strsDone(newContainer.Args, container.Args, -1, sub)
+//@   loop 3 invariant -1 <= rangeindex && rangeindex < len(newContainer.Args) && newContainer != nil && fresh(newContainer)
+//@        && (len(container.Args) > 0 ==> fresh(newContainer.Args)) && newContainer.Image == sub(container.Image) && newContainer.Name == container.Name
+//@   loop 3 invariant envDone(newContainer.Env, container.Env, len(container.Env), sub) && strsDone(newContainer.Command, container.Command, len(container.Command), sub) && strsDone(newContainer.Args, container.Args, rangeindex, sub)
+//@   ensures [C18] image-substituted: result.Image == sub(container.Image) && result.Name == container.Name
+//@   ensures [C18] env-values-substituted: envDone(result.Env, container.Env, len(container.Env), sub)
+//@   ensures [C18] command-substituted: strsDone(result.Command, container.Command, len(container.Command), sub)
+//@   ensures [C18] args-substituted: strsDone(result.Args, container.Args, len(container.Args), sub)
+
+// a container is the substituted form of another
+//@ pure contDone(n v1.Container, o v1.Container, sub subFunc) bool = n.Image == sub(o.Image) && n.Name == o.Name
+//@     && envDone(n.Env, o.Env, len(o.Env), sub) && strsDone(n.Command, o.Command, len(o.Command), sub) && strsDone(n.Args, o.Args, len(o.Args), sub)
+// every container and init container of the pod spec is substituted (in the caller's copy of the spec)
+//@ func substitutePodSpec
+//@   tags C18
+//@   requires len(spec.InitContainers) > 0 && len(spec.Containers) > 0 ==> !samearray(spec.InitContainers, spec.Containers)
+//@   modifies elems(spec.InitContainers), elems(spec.Containers)
+//@   loop 1 invariant -1 <= rangeindex && rangeindex < len(spec.InitContainers)
+//@   loop 1 invariant forall k int :: {spec.InitContainers[k]} 0 <= k && k < len(spec.InitContainers) ==> (k <= rangeindex ? contDone(spec.InitContainers[k], old(spec.InitContainers[k]), sub) : spec.InitContainers[k] == old(spec.InitContainers[k]))
+//@   loop 1 invariant forall k int :: {spec.Containers[k]} 0 <= k && k < len(spec.Containers) ==> spec.Containers[k] == old(spec.Containers[k])
+//@   loop 2 invariant -1 <= rangeindex && rangeindex < len(spec.Containers)
+//@   loop 2 invariant forall k int :: {spec.InitContainers[k]} 0 <= k && k < len(spec.InitContainers) ==> contDone(spec.InitContainers[k], old(spec.InitContainers[k]), sub)
+//@   loop 2 invariant forall k int :: {spec.Containers[k]} 0 <= k && k < len(spec.Containers) ==> (k <= rangeindex ? contDone(spec.Containers[k], old(spec.Containers[k]), sub) : spec.Containers[k] == old(spec.Containers[k]))
+//@   ensures [C18] every-init-container-substituted: len(result.InitContainers) == len(spec.InitContainers) && (forall k int :: {result.InitContainers[k]} 0 <= k && k < len(spec.InitContainers) ==> contDone(result.InitContainers[k], old(spec.InitContainers[k]), sub))
+//@   ensures [C18] every-container-substituted: len(result.Containers) == len(spec.Containers) && (forall k int :: {result.Containers[k]} 0 <= k && k < len(spec.Containers) ==> contDone(result.Containers[k], old(spec.Containers[k]), sub))
